@@ -176,7 +176,8 @@ def parse_state(text: str) -> Rec:
         p.ws()
         if p.i >= len(p.s):
             break
-        p.expect("/\\")
+        if p.s.startswith("/\\", p.i):
+            p.expect("/\\")
         name = p.ident()
         p.expect("=")
         st[name] = p.value()
